@@ -38,6 +38,7 @@ META = {
     "discipline (checked by C28/C29). Not covered: boundary/openings observables that terminate with an error, closing observables "
     "that fire synchronously at subscription, windows that are never subscribed or subscribed late.",
 }
+META["text"] += "; thread part: window/buffer(boundaries) and window_when/buffer_when with the boundaries on another thread than the source: the windows partition the source"
 RULE = (
     "all (rule, parameters, timeline, form) with rule in {count,time,time-or-count,boundary,when,toggle}, parameters from the tier's "
     "tables, timeline = distinct-valued elements on every subset (size<=N) of slots 10..10*M (+ burst variants) x terminal "
